@@ -63,8 +63,14 @@ func decodeString(f reflect.Type, t reflect.Type, data any) (any, error) {
 		return fmt.Sprintf("%v", data), nil
 	}
 	if f.Kind() == reflect.Ptr {
+		v := reflect.ValueOf(data).Elem()
+		// A nil behind the pointer (a nil pointer or a nil interface) is not a value to decode from: leave the data as
+		// it is, so that it is handled (and reported) like any other value of an unexpected type
+		if !v.IsValid() || ((v.Kind() == reflect.Ptr || v.Kind() == reflect.Interface) && v.IsNil()) {
+			return data, nil
+		}
 		f = f.Elem()
-		data = reflect.ValueOf(data).Elem().Interface()
+		data = v.Interface()
 	}
 	if f.Kind() != reflect.String {
 		return data, nil
